@@ -70,6 +70,8 @@ def run(ck):
     ck.undecided("that no exception interrupts a run (C18/C19); floating-point rounding (identities are over the reals)")
     funcs = process_functions(repo)
     ck.floor("process functions (methods returning ProcessModel)", len(funcs), 4)
+    from ..purity import purity
+    purity(ck, repo, funcs)
     total_paths = 0
     for func in funcs:
         ck.analysed_function(func)
